@@ -21,7 +21,7 @@ import (
 	"github.com/flamego/flamego/verifharness/internal/gen"
 )
 
-const rule = "case = request method in {GET, HEAD, POST, PUT, DELETE, OPTIONS, \"\"} x an underlying writer (with or without http.Flusher, with or without io.ReaderFrom; sometimes itself a fresh flamego ResponseWriter around the spy) x a history of 1..14 operations over {WriteHeader(100..999; with an underlying writer that refuses other codes by panicking also 0, 99, 1000, -1), Write / io.WriteString / io.Copy of 0..64 bytes or of 0.5..70 KB (optionally cut short by the underlying writer with an error), Flush, Before(hook)}; hooks set a header, read Status()/Written(), log themselves and sometimes register one more function while they run. " +
+const rule = "case = request method in {GET, HEAD, POST, PUT, DELETE, OPTIONS, \"\"} x an underlying writer (with or without http.Flusher, with or without io.ReaderFrom; sometimes itself a fresh flamego ResponseWriter around the spy; one case in five: the writer is the one a handler gets from its request context, after an earlier request on the same application registered 0..2 functions on its own response and wrote nothing) x a history of 1..14 operations over {WriteHeader(100..999; with an underlying writer that refuses other codes by panicking also 0, 99, 1000, -1), Write / io.WriteString / io.Copy of 0..64 bytes or of 0.5..70 KB (optionally cut short by the underlying writer with an error), Flush, Before(hook)}; hooks set a header, read Status()/Written(), log themselves and sometimes register one more function while they run. " +
 	"Oracle: a state-machine model written from the statement, compared after every step (Status, Written, Size, return values of Write) together with invariants over the log of calls the underlying writer received (<=1 WriteHeader, before every Write/Flush; hooks registered before the trigger ran exactly once, in reverse order, before that WriteHeader, and saw Status()==0; later hooks never run). " +
 	"non-trivial = a history with >=2 hooks and a trigger, or a second WriteHeader / an implicit 200, or a body write on HEAD, or a short write; distinct by case text"
 
